@@ -100,6 +100,93 @@ class SymFlagSet:
             raise sem(KeyError(k))
         self.mem[k] = False
 
+    # the rest of the `set` API, by the same forking membership test (mutators return None, as set's do)
+    def _derived(self, mem):
+        r = SymFlagSet(mem)
+        r.decided = self.decided
+        r.parent = self
+        return r
+
+    def copy(self):
+        return self._derived(self.mem)
+
+    def add(self, k):
+        self.mem[k] = True
+
+    def discard(self, k):
+        self.mem[k] = False
+
+    def clear(self):
+        for k in list(self.mem):
+            self.mem[k] = False
+
+    def update(self, *others):
+        for o in others:
+            self.__ior__(o)
+
+    def difference_update(self, *others):
+        for o in others:
+            self.__isub__(o)
+
+    def intersection_update(self, *others):
+        for o in others:
+            keep = set(o)
+            for k in list(self.mem):
+                if k not in keep:
+                    self.mem[k] = False
+
+    def __iand__(self, other):
+        self.intersection_update(other)
+        return self
+
+    def __sub__(self, other):
+        r = self.copy()
+        r.difference_update(other)
+        return r
+
+    difference = __sub__
+
+    def __or__(self, other):
+        r = self.copy()
+        r.update(other)
+        return r
+
+    union = __or__
+    __ror__ = __or__
+
+    def intersection(self, other):
+        return self.__and__(other)
+
+    def issubset(self, other):
+        return all(k in other for k in self)
+
+    __le__ = issubset
+
+    def issuperset(self, other):
+        return all(self._has(k) for k in other)
+
+    __ge__ = issuperset
+
+    def __lt__(self, other):
+        return self.issubset(other) and self.plen() < len(other)
+
+    def __gt__(self, other):
+        return self.issuperset(other) and self.plen() > len(other)
+
+    def isdisjoint(self, other):
+        return not any(self._has(k) for k in other)
+
+    def __eq__(self, other):
+        if isinstance(other, (set, frozenset, SymFlagSet)):
+            return self.issubset(other) and self.issuperset(other)
+        return NotImplemented
+
+    def __ne__(self, other):
+        r = self.__eq__(other)
+        return r if r is NotImplemented else not r
+
+    __hash__ = None
+
     def snapshot(self):
         return dict(self.mem)
 
@@ -310,9 +397,13 @@ def _register_from():
                 al = "ADDITIONAL-LINE" if nested else None
                 cd = types.SimpleNamespace(type=tp, blocks="BLOCKS", _additional_args="ADDL", freevars=("fv",) if free else (), _additional_line=al,
                                            future_annotations=annotations, _nested=nested, first_line_number=first, stacksize=9, filename="file.py", name="nm")
-                if cfg.vt < (3, 8):
-                    ctx.assume(pos.z == 0, "pre: positional-only parameters need 3.8 (otherwise NotImplementedError, allowed)")
-                ns["from_code_data"](cd)
+                try:
+                    ns["from_code_data"](cd)
+                except NotImplementedError:
+                    ctx.prove("raise.NotImplementedError_only_for_positional_only_parameters_before_3.8", z3.And(z3.BoolVal(cfg.vt < (3, 8) and kind is not None), pos.z != 0))
+                    continue
+                if cfg.vt < (3, 8) and kind is not None:
+                    ctx.prove("post.before_3.8_returns_only_without_positional_only_parameters(C03: refuses rather than re-kind them)", pos.z == 0)
                 got = cap["args"]
                 idx = (lambda i: i) if cfg.vt >= (3, 8) else (lambda i: i if i == 0 else i - 1)
                 names = ["argcount", "posonlyargcount", "kwonlyargcount", "nlocals", "stacksize", "flags", "code", "consts", "names", "varnames", "filename", "name", "firstlineno", "linetable", "freevars", "cellvars"]
